@@ -10,6 +10,8 @@ def check(ctx):
     rep.floor("extern functions with raw-pointer parameters", nfuncs, 72)
     rep.floor("raw-pointer parameters", nparams, 95)
     nown, ntypes = ffi.check_ownership(ctx, rep)
+    nrs = ffi.check_returned_strings(ctx, rep)
+    rep.floor("exported functions returning a C string", nrs, 8)
     rep.floor("ownership primitives (from_raw / into_raw) in c_api", nown, 12)
     rep.floor("owning handle types returned", ntypes, 1)
     nuns = ffi.check_unsafe_calls(ctx, rep)
